@@ -791,8 +791,8 @@ def oracle(case, obs, raw):
     mx = case.get("max_redirects", 10)
     if mx > 0 and n > mx:
         bad.append(("too_many_requests", f"{n} requests made with max_redirects={mx}"))
-    if mx == 0 and n > 1:
-        bad.append(("max_redirects_zero_unbounded", f"{n} requests made with max_redirects=0 (no bound is applied)"))
+    if mx <= 0 and n > 1:
+        bad.append(("too_many_requests", f"{n} requests made with max_redirects={mx} (no redirect may be followed)"))
     # 6. history and release
     if obs["outcome"] == "done":
         inter = [[(chain[i]["status"] if i < len(chain) else 200), reqs[i]["sch"], reqs[i]["host"], reqs[i]["port"], reqs[i]["path"]]
@@ -823,11 +823,7 @@ def oracle(case, obs, raw):
     return bad
 
 
-def sig_max_redirects_zero(case, params):
-    return case.get("kind") == "max_redirects_zero_unbounded" and case.get("case", {}).get("max_redirects") == 0
-
-
-SIGNATURES = {"max_redirects_zero": sig_max_redirects_zero}
+SIGNATURES: dict = {}      # no open known finding
 
 
 # ---------------------------------------------------------------------------------------------
@@ -1022,7 +1018,8 @@ def check_cases(ctx, exe, suite, cases, record_known_only=False):
 def load_corpus():
     d = os.path.join(fw.VERIF, "corpus", PROP)
     out = []
-    for fn in sorted(os.listdir(d)) if os.path.isdir(d) else []:
+    # regression cases of repaired defects (fixed-*) run first
+    for fn in sorted(os.listdir(d), key=lambda f: (not f.startswith("fixed-"), f)) if os.path.isdir(d) else []:
         if fn.endswith(".json"):
             payload = json.load(open(os.path.join(d, fn)))
             c = payload.get("case", payload)
